@@ -107,6 +107,20 @@ type dTagHolder struct {
 	N     int
 }
 
+// a Taggable struct whose tag list is empty, and a struct that holds one before a Taggable map holder
+type dNoTags struct {
+	Name   string `class:"public"`
+	Secret string `class:"secret"`
+}
+
+func (*dNoTags) Tags() ([]encrypt.PointerTag, error) { return nil, nil }
+
+type dTagSibling struct {
+	A *dNoTags
+	H dTagHolder
+	N int
+}
+
 // mkTagMap builds a map whose keys carry canaries, and a tag list over present and absent keys in a
 // random order: keys tagged public keep their value, everything else must not survive
 func mkTagMap(c *canary, p *prng) (tagMap, []encrypt.PointerTag) {
@@ -342,6 +356,7 @@ func deepShapes(p *prng, n int, st *stats, oracle func(string, ...any)) {
 	ctx := context.Background()
 	f := &encrypt.Filter{Wrapper: testWrapper(1), HmacSalt: []byte("s"), HmacInfo: []byte("i")}
 	reported := map[string]bool{}
+	var reuseE *eventlogger.Event
 	for i := 0; i < n; i++ {
 		st.Cases++
 		st.Ops++
@@ -350,7 +365,7 @@ func deepShapes(p *prng, n int, st *stats, oracle func(string, ...any)) {
 		kind := ""
 		curTags = nil
 		f.IgnoreTypes = nil
-		switch p.intn(28) {
+		switch p.intn(29) {
 		case 0:
 			l := mkLeaf(c, p)
 			payload, kind = &l, "ptr-struct"
@@ -449,6 +464,12 @@ func deepShapes(p *prng, n int, st *stats, oracle func(string, ...any)) {
 			l := mkLeaf(c, p)
 			psp, pbp, plp, ppp := &ps, &pb, &l, &pp
 			payload, kind = &dPP{PS: &psp, PB: &pbp, PT: &plp, PP: &ppp, N: 1}, "pointers-to-pointers"
+		case 28:
+			// a Taggable struct (one that names no pointers) next to a struct holding a Taggable map: what the
+			// filter does for the first must not change what it does for its siblings
+			m, tags := mkTagMap(c, p)
+			curTags = tags
+			payload, kind = &dTagSibling{A: &dNoTags{Name: c.pub(), Secret: c.prot()}, H: dTagHolder{Attrs: m, L: mkLeaf(c, p), N: 1}, N: 1}, "taggable-struct-sibling"
 		case 27:
 			// the payload itself is a string or bytes, held by value (nothing to set: refused) or by pointer
 			// (filtered in place of the copy), or a slice of them
@@ -511,6 +532,14 @@ func deepShapes(p *prng, n int, st *stats, oracle func(string, ...any)) {
 		before, _ := json.Marshal(payload)
 		// the event reaches the filter already formatted (a formatter before it, another pipeline)
 		e := &eventlogger.Event{Type: "t", CreatedAt: time.Unix(1700000000, 12345), Payload: payload, Formatted: map[string][]byte{"pre": []byte("abc"), "empty": {}, "nilv": nil}}
+		if reuseE != nil && p.chance(1, 3) {
+			// the caller re-uses its Event value for the next payload: what is forwarded belongs to what the
+			// event holds now
+			reuseE.Payload, reuseE.Formatted = payload, e.Formatted
+			e = reuseE
+			st.hit("deep:event-value-reused")
+		}
+		reuseE = e
 		got, err := func() (g *eventlogger.Event, er error) {
 			defer func() {
 				if r := recover(); r != nil {
@@ -586,6 +615,8 @@ func deepShapes(p *prng, n int, st *stats, oracle func(string, ...any)) {
 				om = v.Attrs
 			case []*dTagHolder:
 				om = v[0].Attrs
+			case *dTagSibling:
+				om = v.H.Attrs
 			}
 			for _, t := range curTags {
 				cur := reflect.ValueOf(map[string]interface{}(om))
